@@ -225,6 +225,8 @@ func classifyNames(names []string) []string {
 	return out
 }
 
+var c10Stems = []string{"target", "vendor.com-gpu_batch-*", "t*.x*", "sp?c[1]", "%s%d", "tar get", "-dash", "x.y.z"}
+
 func checkC10(c *Ctx) {
 	c.Level = "fault_enumeration"
 	c.Rule = "for {previous file present, absent} x {json, yaml} x {small, ~64 KiB} Specs: (1) one WriteSpec in a child under strace, the writer thread's file-system syscalls between two markers enumerated from a dry run, one run per syscall with SIGKILL injected on entry (and on entry to the end marker); (2) write failure at every/sampled byte offset with a soft RLIMIT_FSIZE, ENOSPC on a 64 KiB tmpfs, rename onto a non-empty directory, and EIO/ENOSPC/EACCES injected into each syscall of the sequence; (3) raw inotify trace of the directory plus sampling readers and a refreshing cache during repeated concurrent overwrites; (4) a complete reader observation at each write.* hook point; oracle everywhere: every Spec-named entry is byte-equal to the complete old or complete new content, a fresh cache reports no error and resolves old or new, leftovers are not loadable; distinct_nontrivial = distinct (scenario, instrument, crash point / fault / offset class, resulting directory state)"
@@ -241,7 +243,10 @@ func checkC10(c *Ctx) {
 				sc := &c10Scenario{enc: enc, prev: prev, big: big}
 				sc.name = fmt.Sprintf("%s-prev%v-big%v", enc, prev, big)
 				sc.dir = filepath.Join(c.Scratch, "s-"+sc.name, "specs")
-				sc.target = filepath.Join(sc.dir, "target."+enc)
+				// the Spec name is the caller's: characters that mean something to a
+				// pattern, a format or a shell must not leak into how the file is staged
+				stem := c10Stems[len(scenarios)%len(c10Stems)]
+				sc.target = filepath.Join(sc.dir, stem+"."+enc)
 				sc.oldSpec, sc.newSpec = c10Spec("old", false), c10Spec("new", big)
 				sc.oldData = specBytes(sc.oldSpec, enc)
 				sc.specFile = filepath.Join(c.Scratch, "s-"+sc.name, "new-spec.json")
@@ -527,7 +532,7 @@ func c10Inotify(cs *Case) {
 	big := idx >= 2
 	dir := filepath.Join(c.Scratch, "i-"+cs.Name[8:], "specs")
 	must(os.MkdirAll(dir, 0o755))
-	name := "target." + enc
+	name := c10Stems[(idx+1)%len(c10Stems)] + "." + enc
 	target := filepath.Join(dir, name)
 	// the two contents differ in size and neither is a prefix of the other
 	specA, specB := c10Spec("A", big), c10Spec("B", !big)
